@@ -59,6 +59,14 @@ PROP = {'drive': ['Conc'],
         '(documented there); this is caller-owned input, not font state, and is outside the property',
     ],
     'modelled_not_verified': [
+        'slice aliasing and capacity: the Lean models of header.Write (C03) and of the listed operations treat '
+        'byte slices as lists, so a write into the spare capacity of a shared slice (append(body, pad...)) is '
+        'outside what the theorems speak about; it is covered by the D predicate "capacity snapshot unchanged": '
+        'the deep hash covers s[:cap(s)] of every slice reachable from the font, spare capacity is poisoned '
+        'with 0xEE first (io.ReadAll leaves it zero, so zero padding would be invisible), font variants '
+        '+img/+imgj/+odd give the raw TrueType tables lengths not divisible by 4 as adjacent sub-slices of one '
+        'image, and stream conc.hdrwrite checks header.Write itself on such a table map (successive and '
+        'concurrent calls: image unchanged except head[8:12], identical bytes)',
         'atomic steps, sequential consistency and a total store are modelling choices: weak-memory behaviour of '
         'racy programs is outside the model (for confined operations there is nothing to reorder: no shared '
         'location is written)',
